@@ -177,6 +177,50 @@ def rule_arguments(ctx):
         raise AnalysisError(f"[C11.3-handler-arguments] EVENT branch outside the modelled subset: {e}")
 
 
+def rule_reentrant_unsubscribe(ctx):
+    """A handler may unsubscribe (itself or a sibling) while the event is being delivered -- unsubscribe() removes the entry from the
+    handler list the fan-out walks.  Cell-wise over (which handler unsubscribes, which one is removed): every handler attached when the
+    event arrived and still subscribed at its turn is invoked exactly once, in order; nobody is skipped because the list shrank."""
+    from ..core.tiny import Tiny, Sym
+    ctx.rule("C11.2-per-handler-isolation")
+    om = get_onmessage(ctx)
+    ev_body = _arm_body(om, "Event")
+    problems = []
+    try:
+        for who in range(3):
+            for whom in range(3):
+                subs_ = []
+                for i in range(3):
+                    h = Sym(f"handler{i}", fn=Sym(f"fn{i}"), obj=None, details_arg=None)
+                    subs_.append(Sym(f"subscription{i}", handler=h, topic="com.topic", id=55, active=True))
+                order = list(subs_)
+                table = {55: subs_}
+                env = {"msg.subscription": 55, "self._subscriptions": table, "self": Sym("session"), "msg.args": None, "msg.kwargs": None, "msg.publication": 1,
+                       "msg.topic": None, "msg.enc_algo": None, "msg.x_acknowledged_delivery": None}
+                for nm in ("publisher", "publisher_authid", "publisher_authrole", "transaction_hash", "retained", "forward_for", "payload", "enc_serializer", "enc_key"):
+                    env[f"msg.{nm}"] = None
+                invoked = []
+
+                def default(fname, a_, k_=None):
+                    if fname == "txaio.as_future":
+                        k = [s_.attrs["handler"].attrs["fn"] for s_ in order].index(a_[0])
+                        invoked.append(k)
+                        if k == who and order[whom] in table[55]:
+                            table[55].remove(order[whom])  # what Subscription.unsubscribe() -> _unsubscribe() does
+                            order[whom].attrs["active"] = False
+                        return Sym("future")
+                    return Sym(f"<{fname}>")
+                t = Tiny(env, default_call=default)
+                r = t.run(ev_body)
+                want = [k for k in range(3) if not (whom > who and k == whom)]
+                if r[0] not in ("fall", "return") or invoked != want:
+                    problems.append(f"handler {who} unsubscribes handler {whom} while being called: invoked {invoked} ({r[0]}), expected {want}")
+        ctx.ob("a handler that unsubscribes (itself or a sibling) during delivery does not make another handler miss or repeat the event [9 cells]", not problems,
+               "; ".join(problems[:2]), om.fn.loc())
+    except AnalysisError as e:
+        raise AnalysisError(f"[C11.2-per-handler-isolation] EVENT branch outside the modelled subset: {e}")
+
+
 def _arm_body(om, arm):
     """Statement list of the `isinstance(msg, message.<arm>)` branch of onMessage."""
     for x in ast.walk(om.fn.node):
@@ -389,6 +433,7 @@ def rule_unknown(ctx):
 def run(ctx):
     rule_no_shared_mutation(ctx)
     rule_isolation(ctx)
+    rule_reentrant_unsubscribe(ctx)
     rule_arguments(ctx)
     rule_lists(ctx)
     rule_unknown(ctx)
